@@ -212,20 +212,30 @@ class DateYYYYMMDD(Compound, Date):
     @classmethod
     def __compound_init__(cls):
         assert len(cls.field_schema) < 4
-        if len(cls.field_schema) == 3:
+        # fields generated for a parent class are regenerated, so that a
+        # derived class gets the same members whether or not its parent
+        # has been prepared already
+        fields = [
+            field
+            for field in cls.field_schema
+            if not field.__dict__.get("_compound_generated")
+        ]
+        if len(fields) == 3:
             return
 
-        fields = list(cls.field_schema)
         optional = cls.optional
 
+        def generated(name, format):
+            field = Integer.named(name).using(format=format, optional=optional)
+            field._compound_generated = True
+            return field
+
         if len(fields) == 0:
-            fields.append(Integer.named("year").using(format="%04i", optional=optional))
+            fields.append(generated("year", "%04i"))
         if len(fields) == 1:
-            fields.append(
-                Integer.named("month").using(format="%02i", optional=optional)
-            )
+            fields.append(generated("month", "%02i"))
         if len(fields) == 2:
-            fields.append(Integer.named("day").using(format="%02i", optional=optional))
+            fields.append(generated("day", "%02i"))
 
         cls.field_schema = fields
 
